@@ -79,7 +79,12 @@ node outside the state (separation-style invariant `Inv` / frame `Res`).
   containing `;` (names also `:`), non-ASCII whitespace (assumption of the string model).
 * `StaticVec` has no constructor in the shared `View` / `State`: the correspondence driver composes
   the model's `unmount` / `build` / `mount` for it (top level as the last child, or the one child of a
-  top-level element); no theorem speaks about it.  Raw-text elements (`script`, `style`, `textarea`,
+  top-level element).  That composition is proved equal to a fresh render for a region at the END of
+  its parent: `C03_staticvec_rebuild` (stage 1), `C03_staticvec_rebuild_items` (stage 2b),
+  `C03_staticvec_rebuild_child` (the children of an element, via `StateOk.elemChild`),
+  `C03_staticvec_rebuild_elem` (the whole element in ITS parent, between any siblings:
+  `staticvec_child_spec` re-wraps the element with `Res.nest`), resting on
+  `unmount_ready` (after `unmount` the parent is still an element with children `pre ++ post`).  Raw-text elements (`script`, `style`, `textarea`,
   `noscript`) are ordinary tags: every theorem covers them.
 * Stage 4 (`keyed`) is not in the Lean `View` type (modelled over an abstract child list in
   `Model/Keyed.lean`, C11; adding a constructor would break the exhaustive matches of the C05
@@ -1031,5 +1036,221 @@ example :
     HasTy v ty ∧ Ty.spreadKeysOk a.ty ty = true ∧ View.spreadKeysOk a.ty v = true ∧
     (View.spread a v).inFragment3 = true ∧ (View.spread a v).pairItems (View.spread b v) = true ∧
     updateSeqEqFresh (View.spread a v) [View.spread b v, View.spread a v] = true := by decide
+
+/-! ## `StaticVec` (the C03-local wrapper of the correspondence driver) -/
+
+/-- after `unmount` the parent is ready for a fresh `build` + `mount` between the same siblings:
+the parent is still an element (kind preservation of `removeAll`), its children are `pre ++ post`,
+the siblings are untouched -/
+theorem unmount_ready {R : List (String × String) → List (String × String) → Prop}
+    (v : View) (st : State) (d : Dom) (p : Id) (pre post : List Id) (n0 : Nat)
+    (preT postT : List Tree)
+    (hok : StateOk R d v st p pre post) (hs : SiblingsOk d (owned st) p pre post n0 preT postT) :
+    ∃ rp', (unmount st d).get? p = some rp' ∧ rp'.kind.isElem = true ∧ rp'.kids = pre ++ post ∧
+      p < (unmount st d).next ∧ (∀ x, x ∈ pre ++ post → x < (unmount st d).next) ∧
+      SiblingsOk (unmount st d) [] p pre post n0 preT postT := by
+  obtain ⟨rp, hp, hpe, hk⟩ := hok.inv.par
+  have hspec := removeAll_spec st.roots d p rp pre post hp hk hok.inv.rnodup
+    (Rep.roots_parent v st (some p) hok.rep) (fun hm => hok.inv.pnot (hok.inv.sub p hm))
+    (fun r hr => ⟨fun hm => hok.inv.sib r (by simp [hm]) (hok.inv.sub r hr),
+      fun hm => hok.inv.sib r (by simp [hm]) (hok.inv.sub r hr)⟩)
+  obtain ⟨⟨rp', hp', heq, hk'⟩, hoth, hnx⟩ := hspec
+  rw [unmount_eq]
+  refine ⟨rp', hp', by rw [heq.1]; exact hpe, hk', by rw [hnx]; exact hok.inv.plt,
+    fun x hx => by rw [hnx]; exact hok.inv.siblt x hx, ?_⟩
+  exact hs.step (by rw [hnx]; exact Nat.le_refl _)
+    (fun x _ hxo hxp => hoth x hxp (fun hr => hxo (hok.inv.sub x hr)))
+    (fun x hx => by simp at hx)
+
+/-- **C03_staticvec_rebuild** (stage 1 fragment).  `StaticVec::rebuild` as the correspondence
+driver runs it — unmount the old items, build the new ones, mount them with no marker — on a
+`StaticVec` whose items are the LAST children of their parent `p` (the mount parent for a top-level
+`StaticVec`, the element itself for an element whose one child is the `StaticVec`; `pre` are the
+siblings before it): the parent then serialises to `pre ++ render b`, i.e. exactly what a fresh
+`build` + `mount` of `b` gives (`C03_build_mount`), and the new state is `StateOk` again, so the
+next rebuild / unmount starts from the same situation.  `a` and `b` need not have the same type
+(the list may grow or shrink). -/
+theorem C03_staticvec_rebuild (a b : View) (st : State) (d : Dom) (p : Id) (pre : List Id)
+    (n0 : Nat) (preT : List Tree)
+    (hb : b.inFragment = true)
+    (hok : StateOk Eq d a st p pre []) (hs : SiblingsOk d (owned st) p pre [] n0 preT []) :
+    let r := build b (unmount st d)
+    let d' := mount r.2 r.1 p none
+    StateOk Eq d' b r.2 p pre [] ∧ SiblingsOk d' (owned r.2) p pre [] n0 preT [] ∧
+    (∀ m, max n0 b.depth ≤ m → serListN m d' (d'.kidsOf p) = some (preT ++ render b ++ [])) := by
+  obtain ⟨rp', hp', hpe', hk', hplt, hsl, hs1⟩ := unmount_ready a st d p pre [] n0 preT [] hok hs
+  exact C03_build_mount b (unmount st d) p pre [] rp' n0 preT [] hb hp' hpe' hk' hplt hsl rfl hs1
+
+/-- **C03_staticvec_rebuild**, stage 2b (item-wise attributes; elements compared on cells) -/
+theorem C03_staticvec_rebuild_items (a b : View) (st : State) (d : Dom) (p : Id) (pre : List Id)
+    (n0 : Nat) (preT : List Tree)
+    (hb : b.inFragment3 = true)
+    (hok : StateOk AttrsSim d a st p pre []) (hs : SiblingsOk d (owned st) p pre [] n0 preT []) :
+    let r := build b (unmount st d)
+    let d' := mount r.2 r.1 p none
+    StateOk AttrsSim d' b r.2 p pre [] ∧ SiblingsOk d' (owned r.2) p pre [] n0 preT [] ∧
+    (∀ m, max n0 b.depth ≤ m → ∃ ts, serListN m d' (d'.kidsOf p) = some ts ∧
+      Tree.simList AttrsSim ts (preT ++ render b ++ [])) := by
+  obtain ⟨rp', hp', hpe', hk', hplt, hsl, hs1⟩ := unmount_ready a st d p pre [] n0 preT [] hok hs
+  exact C03_build_mount_items b (unmount st d) p pre [] rp' n0 preT [] hb hp' hpe' hk' hplt hsl rfl
+    hs1
+
+/-- what the driver's `rebuildSv` does at top level is this composition -/
+example (b : View) (st : State) (d : Dom) (p : Id) :
+    (let d1 := unmount st d; let r := build b d1; (mount r.2 r.1 p none, r.2)) =
+    (mount (build b (unmount st d)).2 (build b (unmount st d)).1 p none, (build b (unmount st d)).2) :=
+  rfl
+
+
+
+/-- the children of a mounted (non-void) element are a mounted state of their own: the region is
+ALL the children of the element (`pre = post = []`) -/
+theorem StateOk.elemChild {R : List (String × String) → List (String × String) → Prop}
+    {d : Dom} {tag : String} {as : List AttrVal} {c : View} {el : Id} {ass : List AttrState}
+    {cs : State} {p : Id} {pre post : List Id} (hv : isVoid tag = false)
+    (h : StateOk R d (.elem tag as c) (.elem el ass (some cs)) p pre post) :
+    StateOk R d c cs el [] [] ∧ SiblingsOk d (owned cs) el [] [] 0 [] [] := by
+  have hrep := h.rep
+  simp only [Rep, hv, Bool.false_eq_true, if_false] at hrep
+  obtain ⟨r, hg, hk, _, _, _, c', hcs, hkc, hrc⟩ := hrep
+  cases hcs
+  have hnd := h.inv.nodup
+  simp only [owned, ownedOpt, List.nodup_cons] at hnd
+  refine ⟨⟨hrc, ?_⟩, ⟨by simp [serListN, allSome], by simp [serListN, allSome], by simp⟩⟩
+  apply Inv.ofState ⟨r, hg, by rw [hk]; rfl, by simp [hkc]⟩ hnd.2 hnd.1 (by simp)
+  · intro x hx; exact h.inv.lt x (by simp [owned, ownedOpt, hx])
+  · exact h.inv.lt el (by simp [owned])
+  · simp
+
+/-- **C03_staticvec_rebuild for the one child of an element**: the `StaticVec` children `ca` of a
+mounted element are replaced by `cb` (unmount, build, mount at the end of the element): the
+element's children then serialise to `render cb`, what a fresh build of the element's children
+gives, and are a mounted state again -/
+theorem C03_staticvec_rebuild_child (tag : String) (as : List AttrVal) (ca cb : View) (el : Id)
+    (ass : List AttrState) (cs : State) (d : Dom) (p : Id) (pre post : List Id)
+    (hv : isVoid tag = false) (hb : cb.inFragment = true)
+    (hok : StateOk Eq d (.elem tag as ca) (.elem el ass (some cs)) p pre post) :
+    let r := build cb (unmount cs d)
+    let d' := mount r.2 r.1 el none
+    StateOk Eq d' cb r.2 el [] [] ∧
+    (∀ m, cb.depth ≤ m → serListN m d' (d'.kidsOf el) = some (render cb)) := by
+  obtain ⟨hc, hs⟩ := hok.elemChild hv
+  obtain ⟨h1, _, h3⟩ := C03_staticvec_rebuild ca cb cs d el [] 0 [] hb hc hs
+  exact ⟨h1, fun m hm => by simpa using h3 m (by omega)⟩
+
+section
+variable {R : List (String × String) → List (String × String) → Prop}
+
+/-- `build` + `mount` keep the parent's own record up to its children -/
+theorem build_mount_pframe (v : View) (d : Dom) (p : Id) (pre post : List Id) (rp : NodeRec)
+    (hv : AllEl (AttrsFresh R) v)
+    (hp : d.get? p = some rp) (hpe : rp.kind.isElem = true) (hk : rp.kids = pre ++ post)
+    (hplt : p < d.next) (hsl : ∀ x, x ∈ pre ++ post → x < d.next)
+    (hanchor : Anchor d p post.head? pre post) :
+    ∃ rp', (mount (build v d).2 (build v d).1 p post.head?).get? p = some rp' ∧ EqModKids rp rp' := by
+  have hB := build_spec (R := R) v d hv
+  generalize build v d = bd at hB ⊢
+  obtain ⟨d1, ns⟩ := bd
+  dsimp only at hB ⊢
+  have hp1 : d1.get? p = some rp := by rw [hB.frame p hplt]; exact hp
+  have hnsge : ∀ x, x ∈ owned ns → d.next ≤ x := fun x hx => (hB.range x hx).1
+  have hanchor1 : Anchor d1 p post.head? pre post := by
+    cases hpost : post.head? with
+    | none => rw [hpost] at hanchor; exact hanchor
+    | some a =>
+      rw [hpost] at hanchor
+      obtain ⟨l2', h1, h2, h3⟩ := hanchor
+      refine ⟨l2', h1, h2, ?_⟩
+      have halt : a < d.next := hsl a (by simp [h1])
+      simp only [Dom.getParent] at h3 ⊢
+      rw [hB.frame a halt]; exact h3
+  have hspec := insertAll_spec ns.roots d1 p post.head? rp pre post hp1 hpe hk hanchor1
+    (roots_nodup hB.nodup) (Rep.roots_parent v ns none hB.rep)
+    (by intro h; have := hnsge p (roots_sub_owned ns p h); omega_nat)
+    (by
+      intro r hr
+      have hge := hnsge r (roots_sub_owned ns r hr)
+      exact ⟨fun h => by have := hsl r (by simp [h]); omega_nat,
+        fun h => by have := hsl r (by simp [h]); omega_nat⟩)
+  obtain ⟨⟨rp', hp', he', _⟩, _, _, _⟩ := hspec
+  rw [mount_eq]
+  exact ⟨rp', hp', he'⟩
+
+/-- the `StaticVec` children of a mounted element are replaced (unmount, build, mount at the end of
+the element): the ELEMENT is a mounted state of the new value, and nothing outside it changed -/
+theorem staticvec_child_spec (tag : String) (as : List AttrVal) (ca cb : View) (el : Id)
+    (ass : List AttrState) (cs : State) (d : Dom) (p : Id) (pre post : List Id)
+    (hv : isVoid tag = false) (hb : AllEl (AttrsFresh R) cb)
+    (hok : StateOk R d (.elem tag as ca) (.elem el ass (some cs)) p pre post) :
+    StateOk R (mount (build cb (unmount cs d)).2 (build cb (unmount cs d)).1 el none)
+      (.elem tag as cb) (.elem el ass (some (build cb (unmount cs d)).2)) p pre post ∧
+    Res d (mount (build cb (unmount cs d)).2 (build cb (unmount cs d)).1 el none)
+      (el :: owned cs) [el] (el :: owned (build cb (unmount cs d)).2) p pre post := by
+  obtain ⟨hc, _⟩ := hok.elemChild hv
+  -- the unmount step
+  obtain ⟨rp, hp, hpe, hk⟩ := hc.inv.par
+  have hspec := removeAll_spec cs.roots d el rp [] [] hp hk hc.inv.rnodup
+    (Rep.roots_parent ca cs (some el) hc.rep) (fun hm => hc.inv.pnot (hc.inv.sub el hm))
+    (fun r hr => ⟨by simp, by simp⟩)
+  obtain ⟨⟨rp1, hp1, heq1, hk1⟩, hoth, hnx⟩ := hspec
+  rw [← unmount_eq] at hp1 hoth hnx
+  -- build + mount
+  have hplt : el < (unmount cs d).next := by rw [hnx]; exact hc.inv.plt
+  obtain ⟨hok', hle, hfr, hge⟩ := build_mount_spec (R := R) cb (unmount cs d) el [] [] rp1 hb hp1
+    (by rw [heq1.1]; exact hpe) hk1 hplt (by simp) rfl
+  obtain ⟨rp2, hp2, heq2⟩ := build_mount_pframe (R := R) cb (unmount cs d) el [] [] rp1 hb hp1
+    (by rw [heq1.1]; exact hpe) hk1 hplt (by simp) rfl
+  have hhead : ([] : List Id).head? = none := rfl
+  rw [hhead] at hok' hle hfr hp2
+  have s2 : Res d (mount (build cb (unmount cs d)).2 (build cb (unmount cs d)).1 el none)
+      (owned cs) (build cb (unmount cs d)).2.roots (owned (build cb (unmount cs d)).2) el [] [] := by
+    refine ⟨hok'.inv, by rw [← hnx]; exact hle, ?_, ?_, ?_⟩
+    · intro x hx hxo hxe
+      rw [hfr x (by rw [hnx]; exact hx) hxe]
+      exact hoth x hxe (fun hr => hxo (hc.inv.sub x hr))
+    · intro r hr
+      rw [hp] at hr; cases hr
+      exact ⟨rp2, hp2, heq1.trans heq2⟩
+    · intro x hx; right; rw [← hnx]; exact hge x hx
+  have hinv : Inv d [el] (el :: owned cs) p pre post := by
+    simpa [State.roots, owned, ownedOpt] using hok.inv
+  have res := Res.nest (d1 := d) hinv rfl (fun _ _ => rfl) s2
+  refine ⟨⟨?_, by simpa [State.roots, owned, ownedOpt] using res.inv⟩, res⟩
+  -- the element's own record
+  have hrep := hok.rep
+  simp only [Rep, hv, Bool.false_eq_true, if_false] at hrep
+  obtain ⟨r, hg, hkind, hpar, hattrs, hass, _⟩ := hrep
+  rw [hp] at hg; cases hg
+  obtain ⟨rp3, hgp, _, hkp⟩ := hok'.inv.par
+  rw [hp2] at hgp; cases hgp
+  have he := heq1.trans heq2
+  simp only [Rep, hv, Bool.false_eq_true, if_false]
+  exact ⟨rp2, hp2, by rw [he.1, hkind], by rw [he.2.1, hpar], by rw [he.2.2.1]; exact hattrs, hass,
+    _, rfl, by simpa using hkp, hok'.rep⟩
+
+end
+
+/-- **C03_staticvec_rebuild for the one child of an element**, the whole element (stage 1): after
+the `StaticVec` children `ca` of a mounted element were replaced by `cb`, the ELEMENT's parent
+serialises to `pre ++ render (element with children cb) ++ post` — the fresh render — and the
+element is a mounted state of the new value -/
+theorem C03_staticvec_rebuild_elem (tag : String) (as : List AttrVal) (ca cb : View) (el : Id)
+    (ass : List AttrState) (cs : State) (d : Dom) (p : Id) (pre post : List Id) (n0 : Nat)
+    (preT postT : List Tree)
+    (hv : isVoid tag = false) (hb : cb.inFragment = true)
+    (hok : StateOk Eq d (.elem tag as ca) (.elem el ass (some cs)) p pre post)
+    (hs : SiblingsOk d (owned (.elem el ass (some cs))) p pre post n0 preT postT) :
+    let r := build cb (unmount cs d)
+    let d' := mount r.2 r.1 el none
+    StateOk Eq d' (.elem tag as cb) (.elem el ass (some r.2)) p pre post ∧
+    (∀ m, max n0 (View.elem tag as cb).depth ≤ m →
+      serListN m d' (d'.kidsOf p) = some (preT ++ render (.elem tag as cb) ++ postT)) := by
+  obtain ⟨hok', res⟩ := staticvec_child_spec (R := Eq) tag as ca cb el ass cs d p pre post hv
+    (AllEl.mono AttrsFresh_static cb (inFragment_allEl cb hb)) hok
+  have hs' : SiblingsOk _ (owned (.elem el ass (some (build cb (unmount cs d)).2))) p pre post n0
+      preT postT :=
+    hs.step res.next_le (by simpa [owned, ownedOpt] using res.frame)
+      (by simpa [owned, ownedOpt] using res.own)
+  exact ⟨hok', hok'.ser hs'⟩
 
 end Leptos.View
